@@ -559,9 +559,11 @@ Fixpoint has_float (v : value) : bool :=
   | _ => false
   end.
 
+(* an int or a byte (both compare with a float through float64(...)) *)
 Fixpoint has_int (v : value) : bool :=
   match v with
   | VInt _ => true
+  | VByte _ => true
   | VList l => (fix go (xs : list value) : bool := match xs with [] => false | x :: xs' => has_int x || go xs' end) l
   | VMap m => (fix go (xs : list (bytes * value)) : bool :=
                  match xs with [] => false | (_, x) :: xs' => has_int x || go xs' end) m
@@ -584,7 +586,7 @@ Fixpoint has_str (v : value) : bool :=
 Definition sym_guard (a b : value) : bool :=
   negb (has_bytes a && has_str b) && negb (has_str a && has_bytes b).
 
-(* == is transitive outside this class: int == float == int *)
+(* == is transitive outside this class: int/byte == float == int/byte *)
 Definition trans_guard (a b c : value) : bool :=
   negb (has_float b) || negb (has_int a) || negb (has_int c).
 
@@ -604,3 +606,22 @@ Fixpoint has_oty (t : oty) (v : value) : bool :=
 
 Definition numeric (v : value) : bool :=
   match v with VInt _ | VFloat _ _ | VByte _ => true | _ => false end.
+
+(* numeric values the implementation can hold: int64, byte, non-NaN float64 *)
+Definition int64_ok (z : Z) : bool := (-9223372036854775808 <=? z) && (z <=? 9223372036854775807).
+Definition num_ok (v : value) : bool :=
+  match v with
+  | VInt z => int64_ok z
+  | VByte z => (0 <=? z) && (z <=? 255)
+  | VFloat _ m => negb (is_nan m)
+  | _ => false
+  end.
+
+Definition is_bytes (v : value) : bool := match v with VBytes _ => true | _ => false end.
+Definition is_str (v : value) : bool := match v with VStr _ => true | _ => false end.
+
+(* `x in set` agrees with iterating and comparing outside this class: a member of another type that is
+   numeric like x, or a byte_slice member against a string x *)
+Definition set_in_guard (s : list value) (x : value) : bool :=
+  forallb (fun v => tag_eqb (tag_of v) (tag_of x)
+                    || negb ((numeric v && numeric x) || (is_bytes v && is_str x))) s.
